@@ -357,7 +357,7 @@ static void do_numsweep(long count)
     al_case_begin();
     if (!VD_TRY()) { viol("*", "numeric sweep: memory fault"); return; }
     for (i = 0; i < count; i++) {
-        char *p = lit; cJSON *t; int fam = (int)(i % 7);
+        char *p = lit; cJSON *t; int fam = (int)(i % 8);
         if ((i & 1023) == 0) vd_tick();
         if (lcg(4) == 0) *p++ = '-';
         switch (fam) {
@@ -368,6 +368,7 @@ static void do_numsweep(long count)
             case 4: digits(&p, 19 + (int)lcg(20), 1); if (lcg(2)) { *p++ = '.'; digits(&p, 1 + (int)lcg(10), 0); } break;                  /* more digits than a double holds */
             case 5: { static const char *const EX[] = { "4294967296", "4294967297", "4294967318", "2147483648", "2147483649", "9223372036854775808", "18446744073709551616", "18446744073709551621", "65536", "65541", "32773", "12884901890", "10000000000", "4294967295" };
                       digits(&p, 1 + (int)lcg(4), 1); if (lcg(2)) { *p++ = '.'; digits(&p, 1 + (int)lcg(3), 0); } *p++ = lcg(2) ? 'e' : 'E'; if (lcg(3)) *p++ = lcg(2) ? '-' : '+'; p += sprintf(p, "%s", EX[lcg(sizeof(EX) / sizeof(EX[0]))]); break; }   /* exponents beyond 16 / 32 / 64 bits */
+            case 7: digits(&p, 11 + (int)lcg(8), 1); if (lcg(4) == 0) { *p++ = '.'; *p++ = '0'; } break;                                   /* plain integers of 11 - 18 digits: around 2^53, where a double stops holding every integer */
             default: digits(&p, 1 + (int)lcg(10), 1); if (lcg(2)) { *p++ = '.'; digits(&p, 1 + (int)lcg(6), 0); } break;               /* short, everyday */
         }
         *p = 0;
